@@ -528,3 +528,34 @@ func genUndefDefaults(g *core.G) {
 		}
 	}
 }
+
+// declaredInitHashBack: on the registry-mapped path too, the object type constructs — from the instance's own init hash
+// (attributeSlice.InitHash: the values that differ from their attribute's default) — an instance that converts back to an
+// equal struct.  Only for a struct at the top whose round trip held; skipped when a single Hash argument is ambiguous (the
+// first attribute itself accepts the init hash).  "" = holds.
+func declaredInitHashBack(c px.Context, t *gty, pt px.Type, w px.Value, gv reflect.Value) string {
+	po, isObj := w.(px.PuppetObject)
+	ot, isOT := pt.(px.ObjectType)
+	if t.kind != "struct" || !isObj || !isOT {
+		return ""
+	}
+	var ih px.OrderedMap
+	if k, text := safely(func() { ih = po.InitHash() }); k != "" {
+		return "objreg-inithash-fault InitHash: " + text
+	}
+	if attrs := ot.AttributesInfo().Attributes(); len(attrs) > 0 && px.IsInstance(attrs[0].Type(), ih) {
+		return ""
+	}
+	var o2 px.Value
+	if k, text := safely(func() { o2 = px.New(c, ot, ih) }); k != "" {
+		return "objreg-inithash-fault New from the init hash " + encVal(ih) + ": " + text
+	}
+	back := reflect.New(t.rtype()).Elem()
+	if k, text := safely(func() { c.Reflector().ReflectTo(o2, back) }); k != "" {
+		return "objreg-inithash-fault ReflectTo of the instance made from the init hash: " + text
+	}
+	if !reflect.DeepEqual(gv.Interface(), back.Interface()) {
+		return "objreg-inithash-roundtrip " + encGo(t, gv) + " through the init hash " + encVal(ih) + " came back as " + encGo(t, back)
+	}
+	return ""
+}
